@@ -1623,6 +1623,17 @@ def method(I, recv, name, args, kwargs, callnode=None, unbound=None):
         return I.vc.method_contract(I, recv, name, args, kwargs, callnode=callnode)
     if isinstance(recv, VAny):
         return I.vc.any_method(I, recv, name, args, kwargs)
+    if getattr(recv, 'kind', '') == 'tokens' and name == 'get' and 1 <= len(args) <= 2:
+        # dict.get on the token table of the emitted module: the entry, or the default for a key
+        # that is None / not a recorded position
+        from .interp import Raised
+        dflt = args[1] if len(args) > 1 else NONE
+        try:
+            return get_item(I, recv, args[0])
+        except Raised as r:
+            if getattr(r.args[0], 'cls', None) is KeyError:
+                return dflt
+            raise
     raise Unsupported('method %s on %r' % (name, recv))
 
 
